@@ -927,8 +927,24 @@ func genSimple(r *hx.Rand, spec opSpec, episodes int, faults bool, rep *hx.Repor
 		case k < 80 && spec.usesBounds:
 			rep.Count("episode:bounds-and-edits")
 			lo := r.Range(-1, nKeys)
+			// half of the time the edits made in the pass that moves the window are taken back in the
+			// next pass, with the window held still: an operator must diff against what it saw in the
+			// pass that moved the bounds, not against an older input
+			revert := r.Chance(1, 2)
+			sd := side()
+			if revert {
+				out = append(out, edit{Kind: "rebuild", Side: sd, M: nil, Hi: markSave})
+			}
 			out = append(out, edit{Kind: "bounds", Lo: lo, Hi: lo + r.Range(-1, 4)})
-			some(0, 3)
+			if revert {
+				rep.Count("episode-step:bounds-and-edits:edits-reverted-in-the-next-pass")
+				for n := r.Range(1, 3); n > 0; n-- {
+					out = append(out, randEdit(r, sd))
+				}
+				out = append(out, edit{Kind: "pass"}, edit{Kind: "rebuild", Side: sd, M: nil, Hi: markRestore})
+			} else {
+				some(0, 3)
+			}
 		default:
 			rep.Count("episode:unobserve-edit-reobserve")
 			out = append(out, edit{Kind: "unobs"})
